@@ -77,11 +77,11 @@ theorem scanGroup_strip (qd : List (Int × Nat)) (group : List Note) (actual : N
     intro tupStart st
     unfold scanGroup
     split
-    · split
+    · dsimp only
+      split
       · split
         · exact ih _ _
-        · simp only
-          split
+        · split
           · exact ih _ _
           · split
             · split
@@ -137,7 +137,6 @@ theorem relabel_straight (h div actual d : Nat) (ty : String) (hact : 0 < actual
   simp only at hb ⊢
   split at hb
   · rename_i dl m h1 h2
-    rw [h1, h2]
     simp only [Option.some.injEq] at hb ⊢
     have ha : ((actual : Nat) : Rat) ≠ 0 := by exact_mod_cast (Nat.pos_iff_ne_zero.mp hact)
     simp only [Option.getD_none, Option.getD_some, Nat.cast_one, one_ne_zero, if_false, div_one, mul_one] at hb
